@@ -707,37 +707,38 @@ int dispatch_printed_messages(const char* messages,
                     // convert array from savefile into blob
                     rtosc_arg_val_t* av0 = message.arg_vals.data();
                     int32_t len = rtosc_av_arr_len(av0);
-                    rtosc_arg_t last_arg;
-                    int32_t j = 0, todo = 0;
+                    int32_t j = 0;
                     const char* blob_type = apropos->meta()["blob type"];
                     assert(blob_type); // if this fails, add rBlobType() to port
-                    for(int32_t i = 0; i < len; ++i)
+                    const int32_t max_elems =
+                        buffersize / rtosc_arg_val_size(blob_type[0]);
+                    // the iterator expands ranges, with or without delta
+                    rtosc_arg_val_itr bitr;
+                    rtosc_arg_val_t bbuf;
+                    rtosc_arg_val_itr_init(&bitr, av0 + 1);
+                    while(bitr.i < (size_t)len && ok)
                     {
-                        const rtosc_arg_val_t& av = message.arg_vals[1+i];
-                        switch(av.type)
+                        const rtosc_arg_val_t* av =
+                            rtosc_arg_val_itr_get(&bitr, &bbuf);
+                        if(av->type != blob_type[0] || j >= max_elems)
                         {
-                            case '-':
-                                todo = rtosc_av_rep_num(&av) - 1;
-                                continue;
-                            default:
-                                assert(av.type == blob_type[0]);
-                                last_arg = av.val;
-                                ++todo;
-                                break;
+                            // wrong element type, or more elements than
+                            // the conversion buffer holds
+                            ok = false;
+                            break;
                         }
-                        switch(av.type)
+                        switch(av->type)
                         {
                             case 'f':
-                                for(; todo>0; --todo)
-                                    ((float*)tmp_memory)[j++] = last_arg.f;
+                                ((float*)tmp_memory)[j++] = av->val.f;
                                 break;
                             case 'i':
-                                for(; todo>0; --todo)
-                                    ((int32_t*)tmp_memory)[j++] = last_arg.i;
+                                ((int32_t*)tmp_memory)[j++] = av->val.i;
                                 break;
                             default:
                                 assert(false);
                         }
+                        rtosc_arg_val_itr_next(&bitr);
                     }
                     message.arg_vals.resize(1);
                     message.arg_vals[0].type = 'b';
